@@ -132,6 +132,17 @@ CLAIMED = {
         'Trusted: contexts/values abstract with pure methods, parso search_ancestor; header positions of get_context '
         'are left unspecified (statement and upstream tests disagree there), create_context composition not decided.',
         'contract-based deductive verification (PyVC) + AST obligation', 'DESIGN.md 6/C18'),
+    'C05': (
+        'Deductive, unbounded (loop invariants): rename() rewrites exactly the reported references - the node->text '
+        'map of every file has exactly the tree names of the reported references of that file as keys (both '
+        'inclusions, the second via universally quantified ghost keys), each mapped to its own prefix byte for byte '
+        'followed by the new name; module-file references become file renames by the verified _calculate_rename; an '
+        'empty list is refused with RefactoringError only; Script.rename passes exactly get_references(..., '
+        'include_builtins=False); the reference search restores its flow-analysis switch on every exit.',
+        'Trusted: Refactoring.__init__ stores its arguments, nested-dict aliasing modelled by write-back, pathlib '
+        'model; closure/partition of get_references (open item F7), rename-back identity and behaviour preservation '
+        'are not decided.',
+        'contract-based deductive verification (PyVC loop invariants over maps of maps, z3/cvc5)', 'DESIGN.md 6/C05'),
 }
 
 NOT_APPLICABLE = {
